@@ -79,6 +79,11 @@ def gen_case(streams, tier):
             'start': start, 'second_reset': second, 'garbage_seed': f.getrandbits(32),
             'cycles': gen.gen_inputs(streams['inputs'], script, ncyc),
             'stage': stage,
+            # exports that fail first: the file object raises OSError on its k-th write, and a
+            # padded ROM is exported once while it still lacks pad_with_zeros (refused), then
+            # repaired in place
+            'fail_first': {'k': f.randrange(0, 60), 'rom_repair': f.random() < 0.5}
+            if f.random() < 0.35 else None,
             'sched': world.gen_sched(streams)}
 
 
@@ -138,6 +143,30 @@ def run(case, res):
     blk = b.block
     tags = ['add_reset:%s' % add_reset, 'start:' + case['start']] + \
         (['history:export_extend_export'] if stage else [])
+    # ---- exports that fail, before the one that counts ---------------------------------------
+    ff = case.get('fail_first')
+    if ff:
+        with pyrtl.set_working_block(blk, no_sanity_check=True):
+            if ff.get('rom_repair'):
+                short = [b.mems[i] for i, m in enumerate(script['mems'])
+                         if m.get('rom') and m['rom'].get('pad') and m['rom']['kind'] in ('list', 'dict')
+                         and len(m['rom']['data']) < (1 << m['aw'])]
+                if short:
+                    for mem in short:
+                        mem.pad_with_zeros = False
+                    try:
+                        pyrtl.output_to_verilog(io.StringIO(), add_reset=add_reset, block=blk)
+                    except pyrtl.PyrtlError:
+                        res.faults.hit('export_refused_for_unpadded_rom_then_repaired')
+                    finally:
+                        for mem in short:
+                            mem.pad_with_zeros = True
+            try:
+                pyrtl.output_to_verilog(world.FaultyWriter(ff['k']), add_reset=add_reset, block=blk)
+            except OSError:
+                res.faults.hit('writer_fault_before_export')
+            except pyrtl.PyrtlError:
+                pass
     # ---- export -------------------------------------------------------------------------
     buf = io.StringIO()
     try:
@@ -247,6 +276,14 @@ def run(case, res):
         raise HarnessError('trace source failed: %r' % (e,))
     tb = io.StringIO()
     with pyrtl.set_working_block(blk, no_sanity_check=True):
+        if ff:
+            try:
+                pyrtl.output_verilog_testbench(world.FaultyWriter(ff['k'] // 2), sim.tracer, vcd=None,
+                                               add_reset=add_reset, block=blk)
+            except OSError:
+                res.faults.hit('writer_fault_before_testbench')
+            except pyrtl.PyrtlError:
+                pass
         pyrtl.output_verilog_testbench(tb, sim.tracer, vcd=None, add_reset=add_reset, block=blk)
     tags_b = tags + ['trace:' + kind]
     try:
@@ -389,6 +426,10 @@ def candidates(case):
     if case.get('stage'):
         c = copy.deepcopy(case)
         c['stage'] = None
+        yield c
+    if case.get('fail_first'):
+        c = copy.deepcopy(case)
+        c['fail_first'] = None
         yield c
     if case['init'].get('regs') or case['init'].get('mems') or case['init'].get('default'):
         for part in ('regs', 'mems', 'default'):
